@@ -23,6 +23,21 @@ pub enum Node {
     Repeat(Box<Node>, u8),
     Start,
     End,
+    /// 0 = \b, 1 = \B, 2 = \< (word start), 3 = \> (word end), 4 = \A, 5 = \z
+    Assert(u8),
+    /// 0 = \d, 1 = \w, 2 = \s; negated = upper-case letter
+    Perl(u8, bool),
+    /// counted repetition {min}, {min,}, {min,max}
+    Count(Box<Node>, u8, Option<u8>),
+    /// (?flags:...) with flags among i (ASCII case-insensitive), s (dot matches \n), m (multi-line anchors)
+    Flags { ci: bool, dotall: bool, multi: bool, alts: Vec<Vec<Node>> },
+}
+
+#[derive(Clone, Copy, Default)]
+struct Mode {
+    ci: bool,
+    dotall: bool,
+    multi: bool,
 }
 
 #[derive(Clone, PartialEq, Eq, Hash, Debug)]
@@ -78,9 +93,42 @@ fn node_text(n: &Node, out: &mut String) {
         Node::Repeat(inner, k) => {
             node_text(inner, out);
             out.push(['?', '*', '+'][*k as usize % 3]);
+            if *k % 6 >= 3 {
+                // lazy variant: same language
+                out.push('?');
+            }
         }
         Node::Start => out.push('^'),
         Node::End => out.push('$'),
+        Node::Assert(k) => out.push_str(["\\b", "\\B", "\\<", "\\>", "\\A", "\\z"][*k as usize % 6]),
+        Node::Perl(k, neg) => {
+            let c = [['d', 'D'], ['w', 'W'], ['s', 'S']][*k as usize % 3][*neg as usize];
+            out.push('\\');
+            out.push(c);
+        }
+        Node::Count(inner, min, max) => {
+            node_text(inner, out);
+            match max {
+                Some(m) if m == min => out.push_str(&format!("{{{min}}}")),
+                Some(m) => out.push_str(&format!("{{{min},{m}}}")),
+                None => out.push_str(&format!("{{{min},}}")),
+            }
+        }
+        Node::Flags { ci, dotall, multi, alts } => {
+            out.push_str("(?");
+            if *ci {
+                out.push('i');
+            }
+            if *dotall {
+                out.push('s');
+            }
+            if *multi {
+                out.push('m');
+            }
+            out.push(':');
+            alts_text(alts, out);
+            out.push(')');
+        }
     }
 }
 
@@ -110,8 +158,8 @@ impl Rx {
     pub fn has_class_or_repeat(&self) -> bool {
         fn go(alts: &[Vec<Node>]) -> bool {
             alts.iter().flatten().any(|n| match n {
-                Node::Class { .. } | Node::Repeat(..) => true,
-                Node::Group(a) => go(a),
+                Node::Class { .. } | Node::Repeat(..) | Node::Perl(..) | Node::Count(..) => true,
+                Node::Group(a) | Node::Flags { alts: a, .. } => go(a),
                 _ => false,
             })
         }
@@ -120,7 +168,7 @@ impl Rx {
 
     pub fn is_match(&self, hay: &[u8]) -> bool {
         let all = vec![true; hay.len() + 1];
-        ends_alts(&self.alts, hay, &all).iter().any(|b| *b)
+        ends_alts(&self.alts, hay, &all, Mode::default()).iter().any(|b| *b)
     }
 }
 
@@ -207,54 +255,96 @@ fn union(a: &mut PosSet, b: &PosSet) -> bool {
     changed
 }
 
-fn ends_alts(alts: &[Vec<Node>], hay: &[u8], s: &PosSet) -> PosSet {
+fn ends_alts(alts: &[Vec<Node>], hay: &[u8], s: &PosSet, m: Mode) -> PosSet {
     let mut out = vec![false; s.len()];
     for seq in alts {
         let mut cur = s.clone();
         for n in seq {
-            cur = ends_node(n, hay, &cur);
+            cur = ends_node(n, hay, &cur, m);
         }
         union(&mut out, &cur);
     }
     out
 }
 
-fn ends_node(n: &Node, hay: &[u8], s: &PosSet) -> PosSet {
+fn is_word(b: u8) -> bool {
+    b.is_ascii_alphanumeric() || b == b'_'
+}
+
+fn swap_case(b: u8) -> u8 {
+    if b.is_ascii_alphabetic() { b ^ 0x20 } else { b }
+}
+
+fn keep(s: &PosSet, ok: impl Fn(usize) -> bool) -> PosSet {
+    (0..s.len()).map(|p| s[p] && ok(p)).collect()
+}
+
+fn ends_node(n: &Node, hay: &[u8], s: &PosSet, m: Mode) -> PosSet {
+    let before = |p: usize| p > 0 && is_word(hay[p - 1]);
+    let after = |p: usize| p < hay.len() && is_word(hay[p]);
     match n {
-        Node::Lit(b) => step(hay, s, |x| x == *b),
-        Node::Any => step(hay, s, |x| x != b'\n'),
-        Node::Class { neg, items } => step(hay, s, |x| class_has(items, x) != *neg),
-        Node::Start => {
-            let mut out = vec![false; s.len()];
-            out[0] = s[0];
-            out
-        }
-        Node::End => {
-            let mut out = vec![false; s.len()];
-            out[hay.len()] = s[hay.len()];
-            out
-        }
-        Node::Group(alts) => ends_alts(alts, hay, s),
-        Node::Repeat(inner, kind) => {
-            let star = |from: &PosSet| -> PosSet {
-                let mut r = from.clone();
-                loop {
-                    let nx = ends_node(inner, hay, &r);
-                    if !union(&mut r, &nx) {
-                        return r;
-                    }
-                }
+        Node::Lit(b) => step(hay, s, |x| x == *b || (m.ci && swap_case(x) == *b)),
+        Node::Any => step(hay, s, |x| m.dotall || x != b'\n'),
+        Node::Class { neg, items } => step(hay, s, |x| (class_has(items, x) || (m.ci && class_has(items, swap_case(x)))) != *neg),
+        Node::Perl(k, neg) => step(hay, s, |x| {
+            let inside = match k % 3 {
+                0 => x.is_ascii_digit(),
+                1 => is_word(x),
+                _ => matches!(x, b'\t' | b'\n' | 0x0b | 0x0c | b'\r' | b' '),
             };
-            match kind % 3 {
-                0 => {
-                    let mut r = s.clone();
-                    let nx = ends_node(inner, hay, s);
-                    union(&mut r, &nx);
-                    r
-                }
-                1 => star(s),
-                _ => star(&ends_node(inner, hay, s)),
+            inside != *neg
+        }),
+        Node::Start => keep(s, |p| p == 0 || (m.multi && hay[p - 1] == b'\n')),
+        Node::End => keep(s, |p| p == hay.len() || (m.multi && hay[p] == b'\n')),
+        Node::Assert(k) => match k % 6 {
+            0 => keep(s, |p| before(p) != after(p)),
+            1 => keep(s, |p| before(p) == after(p)),
+            2 => keep(s, |p| !before(p) && after(p)),
+            3 => keep(s, |p| before(p) && !after(p)),
+            4 => keep(s, |p| p == 0),
+            _ => keep(s, |p| p == hay.len()),
+        },
+        Node::Group(alts) => ends_alts(alts, hay, s, m),
+        Node::Flags { ci, dotall, multi, alts } => {
+            let m2 = Mode { ci: m.ci || *ci, dotall: m.dotall || *dotall, multi: m.multi || *multi };
+            ends_alts(alts, hay, s, m2)
+        }
+        Node::Count(inner, min, max) => {
+            let mut cur = s.clone();
+            for _ in 0..*min {
+                cur = ends_node(inner, hay, &cur, m);
             }
+            match max {
+                None => star(inner, hay, &cur, m),
+                Some(mx) => {
+                    let mut acc = cur.clone();
+                    for _ in *min..*mx {
+                        cur = ends_node(inner, hay, &cur, m);
+                        union(&mut acc, &cur);
+                    }
+                    acc
+                }
+            }
+        }
+        Node::Repeat(inner, kind) => match kind % 3 {
+            0 => {
+                let mut r = s.clone();
+                let nx = ends_node(inner, hay, s, m);
+                union(&mut r, &nx);
+                r
+            }
+            1 => star(inner, hay, s, m),
+            _ => star(inner, hay, &ends_node(inner, hay, s, m), m),
+        },
+    }
+}
+
+fn star(inner: &Node, hay: &[u8], from: &PosSet, m: Mode) -> PosSet {
+    let mut r = from.clone();
+    loop {
+        let nx = ends_node(inner, hay, &r, m);
+        if !union(&mut r, &nx) {
+            return r;
         }
     }
 }
@@ -288,13 +378,20 @@ fn gen_class(ch: &mut Choices<'_>) -> Node {
 }
 
 fn gen_atom(ch: &mut Choices<'_>, depth: usize) -> Node {
-    match ch.weighted(&[8, 2, 3, if depth > 0 { 2 } else { 0 }]) {
+    let deep = if depth > 0 { 2 } else { 0 };
+    match ch.weighted(&[16, 4, 6, deep * 2, 3, deep]) {
         0 => Node::Lit(gen_lit(ch)),
         1 => Node::Any,
         2 => gen_class(ch),
-        _ => {
+        3 => {
             let n = ch.range(1, 2);
             Node::Group((0..n).map(|_| gen_seq(ch, depth - 1, 2)).collect())
+        }
+        4 => Node::Perl(ch.draw(3) as u8, ch.chance(1, 3)),
+        _ => {
+            let f = 1 + ch.draw(7);
+            let n = ch.range(1, 2);
+            Node::Flags { ci: f & 1 != 0, dotall: f & 2 != 0, multi: f & 4 != 0, alts: (0..n).map(|_| gen_seq(ch, depth - 1, 3)).collect() }
         }
     }
 }
@@ -303,8 +400,28 @@ fn gen_seq(ch: &mut Choices<'_>, depth: usize, max: usize) -> Vec<Node> {
     let n = ch.range(1, max);
     (0..n)
         .map(|_| {
+            if ch.chance(1, 12) {
+                // zero-width assertions and inner anchors
+                return match ch.draw(8) {
+                    6 => Node::Start,
+                    7 => Node::End,
+                    k => Node::Assert(k as u8),
+                };
+            }
             let a = gen_atom(ch, depth);
-            if ch.chance(1, 4) { Node::Repeat(Box::new(a), ch.draw(3) as u8) } else { a }
+            match ch.weighted(&[9, 3, 1]) {
+                0 => a,
+                1 => Node::Repeat(Box::new(a), ch.draw(6) as u8),
+                _ => {
+                    let min = ch.draw(3) as u8;
+                    let max = match ch.draw(3) {
+                        0 => None,
+                        1 => Some(min),
+                        _ => Some(min + ch.draw(3) as u8),
+                    };
+                    Node::Count(Box::new(a), min, max)
+                }
+            }
         })
         .collect()
 }
@@ -364,7 +481,30 @@ pub fn gen_sample(rx: &Rx, ch: &mut Choices<'_>) -> Vec<u8> {
                     expand_node(inner, ch, out);
                 }
             }
-            Node::Start | Node::End => {}
+            Node::Start | Node::End | Node::Assert(_) => {}
+            Node::Perl(k, neg) => {
+                let inside: &[u8] = [&b"07"[..], &b"a_Z5"[..], &b" \t\n"[..]][*k as usize % 3];
+                let outside: &[u8] = [&b"a \xff"[..], &b" -\xff"[..], &b"a0\x80"[..]][*k as usize % 3];
+                out.push(*ch.pick(if *neg { outside } else { inside }));
+            }
+            Node::Count(inner, min, max) => {
+                let extra = match max {
+                    None => ch.draw(2) as u8,
+                    Some(m) => ch.draw((*m - *min) as usize + 1) as u8,
+                };
+                for _ in 0..(*min + extra) {
+                    expand_node(inner, ch, out);
+                }
+            }
+            Node::Flags { alts, ci, .. } => {
+                let seq = ch.pick(alts);
+                let from = out.len();
+                expand(seq, ch, out);
+                if *ci && out.len() > from && ch.boolean() {
+                    let i = from + ch.draw(out.len() - from);
+                    out[i] = swap_case(out[i]);
+                }
+            }
         }
     }
     let mut out = Vec::new();
